@@ -285,6 +285,24 @@ def runtime_part(run, tier, seed):
         shapes = [(3, 4), (2, 3, 5), (4, 2, 3, 3)] + ([(2, 2, 2, 2, 2)] if tier == "thorough" else [])
         fillers = [("uniform_", lambda t: init.uniform_(t, -0.5, 2.0), ("uniform", -0.5, 2.0)), ("normal_", lambda t: init.normal_(t, 1.0, 0.25), ("normal", 1.0, 0.25)),
                    ("constant_", lambda t: init.constant_(t, 3.5), None), ("ones_", init.ones_, None), ("zeros_", init.zeros_, None)]
+        # argument TYPES: NumPy scalars are "strong" in NumPy 2 promotion (np.float64(0.5) * float32 array -> float64); every numeric argument is also passed
+        # as np.float64 / np.float32 scalar and as a Python int where that makes sense -- the tensor's dtype must survive
+        f64, f32 = np.float64, np.float32
+        typed = [("uniform_", lambda t, c: init.uniform_(t, c(-0.5), c(2.0))), ("normal_", lambda t, c: init.normal_(t, c(1.0), c(0.25))), ("constant_", lambda t, c: init.constant_(t, c(3.5))),
+                 ("xavier_uniform_", lambda t, c: init.xavier_uniform_(t, c(1.7))), ("xavier_normal_", lambda t, c: init.xavier_normal_(t, c(1.7))),
+                 ("kaiming_uniform_", lambda t, c: init.kaiming_uniform_(t, c(0.2), "fan_in", "leaky_relu")), ("kaiming_normal_", lambda t, c: init.kaiming_normal_(t, c(0.2), "fan_out", "leaky_relu"))]
+        for dt in (np.float32, np.float64):
+            for name, fn in typed:
+                for cname, c in (("np.float64", f64), ("np.float32", f32), ("np.sqrt result", lambda v: np.sqrt(f64(v * v)) * (1 if v >= 0 else -1)), ("0-d array", lambda v: np.array(v))):
+                    t = Tensor(np.full((3, 4), 7.0, dtype=dt))
+                    run.rt(("typed-argument", name, np.dtype(dt).name, cname))
+                    try:
+                        r = fn(t, c)
+                    except Exception:
+                        continue        # refusing an argument type is fine (calculate_gain, like PyTorch's, accepts only int/float subclasses): the clause is about what is accepted
+                    if not (r is t and t.data.dtype == dt and t.shape == (3, 4)):
+                        run.violation(NAME + name + ".keeps_identity_shape_dtype_flag", "%s on a %s tensor with %s arguments: dtype became %s" % (name, np.dtype(dt).name, cname, t.data.dtype),
+                                      key={"initialiser": name, "dtype": np.dtype(dt).name, "argument_type": cname}, replay={})
         for dt in (np.float32, np.float64):
             for shape in shapes + [(5,)]:
                 for name, fn, exp in fillers:
@@ -348,16 +366,25 @@ def runtime_part(run, tier, seed):
                 run.violation(NAME + name + ".sample_statistics", "%s: sample mean %.5f std %.5f (documented %.5f / %.5f)" % (name, d.mean(), d.std(), mean, std),
                               key={"initialiser": name, "clause": "statistics"}, replay={"mean": float(d.mean()), "std": float(d.std())})
         # layers start from U(-1/sqrt(fan_in), 1/sqrt(fan_in))
-        for mk, fan_in in [(lambda: nn.Linear(7, 3), 7), (lambda: nn.Conv1d(3, 2, 4), 12), (lambda: nn.Conv2d(2, 3, (2, 3)), 12), (lambda: nn.Neuron(5), 5)]:
+        layer_grid = [(lambda: nn.Linear(7, 3), 7), (lambda: nn.Conv1d(3, 2, 4), 12), (lambda: nn.Conv2d(2, 3, (2, 3)), 12), (lambda: nn.Neuron(5), 5), (lambda: nn.Linear(7, 3, bias=False), 7)]
+        # fan_in = in_channels x kernel elements, whatever the other constructor options are (stride, padding, dilation, bias)
+        for k, st, pd, dl in itertools.product([1, 3, 5], [1, 2], [0, 2], [1, 2, 3]):
+            layer_grid.append((lambda k=k, st=st, pd=pd, dl=dl: nn.Conv1d(3, 2, k, st, pd, dl), 3 * k))
+        for k, st, pd, dl in itertools.product([1, 2, (2, 3), (3, 1)], [1, (2, 1)], [0, (1, 2)], [1, 2, (1, 3), (2, 2)]):
+            kk = (k, k) if isinstance(k, int) else k
+            layer_grid.append((lambda k=k, st=st, pd=pd, dl=dl: nn.Conv2d(2, 3, k, st, pd, dl), 2 * kk[0] * kk[1]))
+        for mk, fan_in in layer_grid:
             recorded.clear()
             L = mk()
             run.rt(("layer", type(L).__name__))
             b = 1.0 / math.sqrt(fan_in)
-            ok = len(recorded) == 2 and all(r_[0] == "uniform" and abs(float(r_[1][0]) + b) < 1e-12 and abs(float(r_[1][1]) - b) < 1e-12 for r_ in recorded)
+            ok = len(recorded) in (1, 2) and all(r_[0] == "uniform" and abs(float(r_[1][0]) + b) < 1e-12 and abs(float(r_[1][1]) - b) < 1e-12 for r_ in recorded)
+            ok = ok and len(recorded) == (2 if getattr(L, "bias", None) is not None else 1)
             ok = ok and L.weight.data.dtype == np.float32 and L.weight.requires_grad and np.all(np.abs(L.weight.data) <= b + 1e-7)
             if not ok:
-                run.violation("synapgrad.nn.layers.%s.reset_parameters.documented_parameters" % type(L).__name__, "layer drew %s, documented U(-%g, %g)" % (recorded, b, b),
-                              key={"layer": type(L).__name__}, replay={})
+                opts = {k_: str(getattr(L, k_)) for k_ in ("kernel_size", "stride", "padding", "dilation") if hasattr(L, k_)}
+                run.violation("synapgrad.nn.layers.%s.reset_parameters.documented_parameters" % type(L).__name__, "layer %s drew %s, documented U(-%g, %g) with fan_in = %d" %
+                              (opts, [(r_[0], [float(v) for v in r_[1][:2]]) for r_ in recorded], b, b, fan_in), key={"layer": type(L).__name__, **opts}, replay={})
     finally:
         init.np = saved
 
